@@ -52,6 +52,17 @@ pub fn run(ctx: &mut Ctx) {
             for _ in 0..pk { c.push(format!("E add {}", to_hex(&ctx.rng.bytes(4)))); }
             c.push("E encode".into());
             if ctx.rng.chance(1, 2) {
+                // on the way: a configuration where both counts round up to the same power of two (both rates give
+                // the same bytes there) - whatever the object remembers about its rate must still be right afterwards
+                let (tk, tr) = *ctx.rng.pick(&[(4usize, 3usize), (3, 4), (3, 3), (7, 5), (5, 7), (6, 8), (2, 2)]);
+                let ts = *ctx.rng.pick(&[2usize, 64]);
+                c.push(format!("E reset {} {} {}", tk, tr, ts));
+                if ctx.rng.chance(1, 2) {
+                    for _ in 0..tk { c.push(format!("E add {}", to_hex(&ctx.rng.bytes(ts)))); }
+                }
+                ctx.count("history", "via-tie-configuration");
+            }
+            if ctx.rng.chance(1, 2) {
                 // a rejected attempt first (odd / zero shard size), then the corrected retry
                 c.push(format!("E reset {} {} {}", k, r, *ctx.rng.pick(&[0usize, 1, 3, 65])));
                 ctx.count("history", "rejected-reset-then-retry");
@@ -99,6 +110,10 @@ pub fn run(ctx: &mut Ctx) {
         if crossing {
             let (pk, pr) = if *high { (2usize, 5usize) } else { (5usize, 2usize) };
             d.push(format!("D new default {} {} {} 4", engine, pk, pr));
+            if ctx.rng.chance(1, 2) {
+                let (tk, tr) = *ctx.rng.pick(&[(4usize, 3usize), (3, 4), (3, 3), (7, 5), (5, 7), (6, 8), (2, 2)]);
+                d.push(format!("D reset {} {} {}", tk, tr, *ctx.rng.pick(&[2usize, 64])));
+            }
             if ctx.rng.chance(1, 2) {
                 d.push(format!("D reset {} {} {}", k, r, *ctx.rng.pick(&[0usize, 1, 3, 65])));
             }
